@@ -127,6 +127,12 @@ struct TaskCtx
     long n_checkpoint[CK_COUNT] = {0, 0, 0, 0, 0};
     long restarts_in_api = 0;
     long last_checkpoint_in_api = -1;
+    // near-breakdown tracking (cheap observer): smallest f_norm()/beta_scale and number of breakdown
+    // restarts seen at checkpoints since the last init checkpoint
+    long double beta_scale = 0;  // 0 = off
+    long double min_beta_rel = 1e300L;
+    long expands_since_init = 0;
+    long restarts_since_init = 0;
     long work_cap = 0;     // abort the API call when attempts exceed this (0 = no cap)
     SeamCtl* seam[2] = {nullptr, nullptr};
     CheckpointObserver* observer = nullptr;
